@@ -998,6 +998,19 @@ def function_cases(ctx, rng, lib, insts):
 
 F_TOL = 1e-7
 
+# The root class leaves abs / exp / log / sqrt / inverse / solve_triangular as stubs (raise NotImplementedError:
+# "only implemented by some LinearOperator subclasses"), so NotImplementedError is an accepted loud answer for them --
+# EXCEPT on the classes that do answer them on the pinned tree (behaviour pinned here, by hand): if one of these starts
+# raising (e.g. its override is no longer found by name: typo, renamed method, wrong MRO) the dispatch is broken.
+ANSWERS_STUB_FUNCTION = {
+    "torch.abs": ["ConstantDiagLinearOperator", "DiagLinearOperator", "IdentityLinearOperator", "KroneckerProductDiagLinearOperator"],
+    "torch.exp": ["ConstantDiagLinearOperator", "DiagLinearOperator", "IdentityLinearOperator"],
+    "torch.log": ["ConstantDiagLinearOperator", "DiagLinearOperator", "IdentityLinearOperator"],
+    "torch.sqrt": ["ConstantDiagLinearOperator", "DiagLinearOperator", "IdentityLinearOperator", "KroneckerProductDiagLinearOperator"],
+    "torch.inverse": ["ConstantDiagLinearOperator", "DiagLinearOperator", "IdentityLinearOperator", "TriangularLinearOperator"],
+    "torch.linalg.solve_triangular": ["ConstantDiagLinearOperator", "DiagLinearOperator", "IdentityLinearOperator", "TriangularLinearOperator"],
+}
+
 
 def l2_compare(case, res, orc, dn):
     """does the value of torch.f(op, ...) mean the same as torch.f(dense, ...)"""
@@ -1036,6 +1049,9 @@ def check_function_case(lib, real, case):
         out["expected_method"] = eres
         if eres is not None and not same_outcome(res, eres, 0.0 if case["cmp"] == "direct" else 1e-12):
             fail = "differs-from-method"
+    if fail is None and res[0] == "err" and isinstance(res[1], NotImplementedError) \
+            and next((x[1] for x in out["kinds"] if x[0] == "op"), None) in ANSWERS_STUB_FUNCTION.get(case["call"], ()):
+        fail = "raises:NotImplementedError"
     if fail is None and case["l2"]:
         if orc[0] == "ok":
             if res[0] == "err":
@@ -1652,14 +1668,28 @@ def correspondence(ctx, meta, rng, coq=True, width=None, broken=None):
     lib.install()
     dcs = []
     n_parser = 0
+    foreign_seen = set()
     try:
         install_tf_probe(lib)
         for call, args in dispatch_cases(w, lib):
-            dc = run_dispatch_case(lib, call, args)
+            dc = guarded(run_dispatch_case, lib, call, args)
             if dc is None:
                 n_parser += 1
             else:
                 dcs.append(dc)
+                if any(k[0] == "foreign" for k in dc["kinds"]) and not (dc["obs"][0] == "raise" and dc["obs"][1] in ("NotImplementedError", "TypeError")) \
+                        and sum(1 for _ in foreign_seen) < 4 and (call, dc["kinds"][0][0]) not in foreign_seen:
+                    foreign_seen.add((call, dc["kinds"][0][0]))
+                    # direct predicate: an operand of an unrelated class with its own __torch_function__ (that declines) is
+                    # never handed to an operator method / densified (C15_foreign_type_raises)
+                    opc = next(k[1] for k in dc["kinds"] if k[0] == "op")
+                    reported += bool(ctx.violation(
+                        dict({"kind": "foreign-operand-not-rejected",
+                              "call": "%s(%s)" % (call, ", ".join("Foreign()" if k[0] == "foreign" else "%s instance" % k[1] if k[0] == "op" else k[0] for k in dc["kinds"])),
+                              "what": "an operand whose class is neither Tensor nor LinearOperator (own __torch_function__ returning NotImplemented) "
+                                      "must make the handler raise NotImplementedError; instead an operator method ran on it",
+                              "observed": [str(x) for x in dc["obs"]]}, **({"broken_obligation": broken} if broken else {})),
+                        key={"call": call, "fail": "foreign-not-rejected", "class": opc}))
         n_dispatch_only = len(dcs)
         tb["dispatch_s"] = round(time.time() - t1, 1)
         t1 = time.time()
